@@ -259,7 +259,7 @@ pub fn run(tier: Tier, seed: u64) -> i32 {
     let mut fams = vec![];
 
     // Family 1: one track, F fragments sharing one option tuple, every vector of run lengths, both movie defaults
-    let fmax = if th { 3 } else { 2 };
+    let fmax = if th { 4 } else { 3 };
     let rmax = if th { 3 } else { 2 };
     let mut f1 = 0u64;
     for f in 1..=fmax {
@@ -312,7 +312,7 @@ pub fn run(tier: Tier, seed: u64) -> i32 {
     let shapes: Vec<Vec<u32>> = vec![vec![1], vec![2], vec![1, 2], vec![2, 1]];
     let small: Vec<Opt> = opts.iter().filter(|o| !o.before && o.tfdt_v == 1 && o.base_time == 5 && o.cts != Some(1)).cloned().collect();
     let mut items = vec![];
-    let fm = if th { 3 } else { 2 };
+    let fm = if th { 4 } else { 3 };
     let mut seqs: Vec<Vec<usize>> = vec![vec![]];
     for _ in 0..fm {
         seqs = seqs.iter().flat_map(|s| (0..shapes.len()).map(move |k| { let mut d = s.clone(); d.push(k); d })).collect();
